@@ -103,21 +103,23 @@ class Interval(Duration, Generic[_T]):
             _end = cast(_T, date(end.year, end.month, end.day))
 
         # Fixing issues with datetime.__sub__()
-        # not handling offsets if the tzinfo is the same
+        # not handling offsets if the tzinfo is the same:
+        # the wall clocks are subtracted and the result corrected by the
+        # offsets (moving each endpoint to UTC could leave datetime's range)
+        offsets = timedelta()
         if (
             isinstance(_start, datetime)
             and isinstance(_end, datetime)
             and _start.tzinfo is _end.tzinfo
+            and _start.tzinfo is not None
         ):
-            if _start.tzinfo is not None:
-                offset = cast(timedelta, cast(datetime, start).utcoffset())
-                _start = cast(_T, (_start - offset).replace(tzinfo=None))
+            offsets = cast(timedelta, cast(datetime, end).utcoffset()) - cast(
+                timedelta, cast(datetime, start).utcoffset()
+            )
+            _start = cast(_T, _start.replace(tzinfo=None))
+            _end = cast(_T, _end.replace(tzinfo=None))
 
-            if isinstance(end, datetime) and _end.tzinfo is not None:
-                offset = cast(timedelta, end.utcoffset())
-                _end = cast(_T, (_end - offset).replace(tzinfo=None))
-
-        delta: timedelta = _end - _start
+        delta: timedelta = _end - _start - offsets
 
         return super().__new__(cls, seconds=delta.total_seconds())
 
